@@ -233,7 +233,7 @@ impl Property for C09 {
         vec!["the write is taken to happen somewhere between the start of the port cycle and the end of the OUT instruction; pixels within 8 T of that span may show either colour", "code runs in uncontended RAM; ports have an uncontended high byte unless stated (the instants are observed, not predicted)"]
     }
     fn expected_probes(&self) -> Vec<&'static str> {
-        vec!["frame_without_write", "several_writes_one_line", "write_in_retrace", "write_straddles_frame_end", "write_in_last_lines", "snapshot_border", "write_before_first_border_line", "snapshot_between_frames", "szx_fe_low_differs", "program_multi_frame_call", "write_in_unpresented_frame"]
+        vec!["frame_without_write", "several_writes_one_line", "write_in_retrace", "write_straddles_frame_end", "write_in_last_lines", "snapshot_border", "write_before_first_border_line", "snapshot_between_frames", "szx_fe_low_differs", "program_multi_frame_call", "write_in_unpresented_frame", "even_port_other_than_fe"]
     }
 
     fn gen(&self, rng: &mut Rng, tier: Tier, _idx: u64) -> Scenario {
@@ -307,7 +307,9 @@ impl Property for C09 {
             }
             ts.sort();
             for t in ts {
-                sc.op("out", &[fr, t, rng.range(0, 7), rng.range(0, 1), (rng.u8() as i64) << 8 | 0xFE, rng.range(0, 255)]);
+                // any even port is the ULA's (OUT (C),A form: also low bytes other than 0xFE, incl. A1 = 0)
+                let lo = if rng.chance(1, 3) { rng.range(0, 127) * 2 } else { 0xFE };
+                sc.op("out", &[fr, t, rng.range(0, 7), rng.range(0, 1), (rng.u8() as i64) << 8 | lo, rng.range(0, 255)]);
             }
             sc.op("frame", &[fr]);
         }
@@ -373,15 +375,30 @@ impl Property for C09 {
                     if t < now {
                         continue; // only forward
                     }
+                    let mut ay_overlap = false;
                     e.verif_set_frame_clocks(t as usize);
                     let mut st = cpu_state(&mut e);
                     st.af = ((c | hi_bits) as u16) << 8;
                     if use_c {
                         st.pc = OUTC;
-                        // keep the high byte out of contended memory so that timing stays simple
-                        let hi = (port >> 8) as u8;
-                        let hi = if (0x40..0x80).contains(&hi) || (m128 && hi >= 0xC0) { hi & 0x3F | 0x80 } else { hi };
-                        st.bc = (hi as u16) << 8 | 0xFE;
+                        // keep the high byte out of contended memory so that timing stays simple. With A1 = 0
+                        // the address may select a second device as well: A15 = 0 the 128K paging latch (the ULA
+                        // still gets the write), A15 = 1 the AY (one case in eight, see known_findings.txt)
+                        let lo = port & 0x00FE;
+                        let a1 = lo & 2 != 0;
+                        let want_ay_overlap = !a1 && op.arg(5) & 7 == 7;
+                        let mut hi = (port >> 8) as u8;
+                        if (0x40..0x80).contains(&hi) || (m128 && hi >= 0xC0) {
+                            hi = hi & 0x3F | 0x80;
+                        }
+                        if !a1 {
+                            hi = if want_ay_overlap { hi | 0x80 } else { hi & 0x3F };
+                        }
+                        ay_overlap = !a1 && hi & 0x80 != 0;
+                        st.bc = (hi as u16) << 8 | lo;
+                        if lo != 0xFE {
+                            ctx.probe("even_port_other_than_fe");
+                        }
                     } else {
                         st.pc = OUTS;
                     }
@@ -418,7 +435,11 @@ impl Property for C09 {
                     hs.u64((t / 64) as u64);
                     ctx.state(hs.get());
                     if e.border_color() as u8 != c {
-                        return Err(Fail::new("C09.border_color", &format!("machine={}", machine), format!("border_color() is {} after OUT of {:02X} to an even port", e.border_color() as u8, c | hi_bits)));
+                        return Err(Fail::new(
+                            "C09.border_color",
+                            &format!("machine={}{}", machine, if ay_overlap { ",ay_overlap=1" } else { "" }),
+                            format!("border_color() is {} after OUT of {:02X} to the even port {:04X}", e.border_color() as u8, c | hi_bits, if use_c { cpu_state(&mut e).bc } else { ((c | hi_bits) as u16) << 8 | 0xFE }),
+                        ));
                     }
                     colour = c;
                     if passed > 0 {
